@@ -12,7 +12,8 @@ import itertools
 import numpy as np
 
 from harness import gen
-from harness.core import err_name, f_list, f_ll, f_opt, f_slice
+from harness.core import err_name, f_list, f_ll, f_opt, f_slice, p_slice
+from harness.props_ext import c13_typed
 
 
 def impl_call(fn, fmt):
@@ -76,6 +77,12 @@ def run(ctx, replay=None):
     )
     NEX = ctx.scale(4, 6)  # exhaustive bound
     NR = ctx.scale(3000, 30000)
+    ctx.rule += ("; typed/large stream (props_ext/c13_typed.py): index elements of every integer type (python int, np.int8…np.uint64, "
+                 "np.intp, bool slice bounds) with values near the type limits, dimensions 257…70000, 10**6, 2**31+7, 2**32+9, 2**40+11, "
+                 "chunk edges at 255/256/257/65535/65536/65537/2**31/2**32, entering through normalize_index; distinct by (helper, "
+                 "element types, dimension class)")
+    if replay is not None:
+        return replay_case(ctx, U, B, replay)
 
     # ---------------- corpus first
     # (past minimized disagreements live in corpus/C13/*.json as {"family","request"})
@@ -166,12 +173,97 @@ def run(ctx, replay=None):
         pairs.append((f"sl.check_index {v} {n}", impl_call(lambda: U.check_index(0, v, n), lambda r: "ok")))
     ctx.correspond("int/_compute_sliced_chunks/_slice_chunks/posify/check_index", pairs)
 
+    # ---------------- every index element type x large dimensions (correspondence + brute force)
+    typed_table = c13_typed.run_typed(ctx, U)
+
     # ---------------- property search on the real helpers (independent of the model)
     search(ctx, U, B, cases_1d, NEX)
 
     # ---------------- targeted search around disagreements
     if ctx.disagreements:
         targeted(ctx, U)
+        n_api = c13_typed.targeted(ctx, U, typed_table)
+        ctx.notes["targeted_search"] = ctx.notes.get("targeted_search", "") + f"; {n_api} API-level replays of typed disagreements"
+
+
+def replay_case(ctx, U, B, replay):
+    """re-run ONE failing case from its dict alone"""
+    case = replay.get("case", replay) if isinstance(replay, dict) else {}
+    fn = case.get("fn")
+    ctx.count(("replay", fn))
+    ctx.sample({"replay": case})
+    sig = replay.get("sig", f"replay:{fn}")
+    x = None
+    if fn in ("normalize_index:slice", "normalize_index:int", "fuse_slice∘normalize_index", "_slice_1d∘normalize_index",
+              "fuse_slice∘normalize_index:tuple"):
+        r = c13_typed.check_case(U, {k: v for k, v in case.items() if k != "detail"})
+        if r is not None:
+            ctx.fail(r[0], {**case, "detail": r[2]}, r[1])
+    elif fn == "api:typed-getitem":
+        bad, how = c13_typed.replay_api(case)
+        if bad:
+            ctx.fail("api:typed-getitem", {**case, "how": how}, "typed chained getitem differs from NumPy")
+    elif fn == "normalize_slice":
+        n, s = case["dim"], p_slice(case["slice"])
+        if list(range(n))[U.normalize_slice(s, n)] != list(range(n))[s]:
+            ctx.fail(sig, case, "normalize_slice changes the selected positions")
+    elif fn in ("_slice_1d", "new_blockdim"):
+        n, cks, s = case["dim"], case["chunks"], p_slice(case["slice"])
+        bad = slice_plan_problem(U, n, cks, s)
+        if bad:
+            ctx.fail(bad[0], case, bad[1])
+    elif fn == "fuse_slice" and "shape" not in case:
+        a = p_slice(case["a"])
+        b = case["b"] if isinstance(case["b"], int) else p_slice(case["b"])
+        x = list(range(9))
+        if x[U.fuse_slice(a, b)] != x[a][b]:
+            ctx.fail(sig, case, "fuse_slice(a,b) != a then b")
+    elif fn == "fuse_slice":
+        shape = tuple(case["shape"])
+        arr = np.arange(int(np.prod(shape))).reshape(shape)
+        ns = {"slice": slice, "None": None}
+        a, b = eval(case["a"], {"__builtins__": {}}, ns), eval(case["b"], {"__builtins__": {}}, ns)
+        try:
+            ok = np.array_equal(arr[U.fuse_slice(a, b)], arr[a][b])
+        except Exception:
+            ok = False
+        if not ok:
+            ctx.fail(sig, case, "tuple fusion differs from sequential indexing")
+    elif fn == "_compose_slices":
+        n, o, i = case["dim"], p_slice(case["outer"]), p_slice(case["inner"])
+        if list(range(n))[B._compose_slices(o, i, n)] != list(range(n))[o][i]:
+            ctx.fail(sig, case, "composed unit-step slices differ")
+    elif "api" in case:
+        n, cks, s = case["n"], tuple(case["chunks"]), p_slice(case["slice"])
+        import dask_array as da
+
+        r = da.from_array(np.arange(n), chunks=(cks,))[s].compute()
+        if not np.array_equal(r, np.arange(n)[s]):
+            ctx.fail(sig, case, "x[slice] differs from NumPy")
+    else:
+        ctx.notes["replay"] = "not a replayable case dict (model-or-proof-broken payloads are re-run by the full check)"
+
+
+def slice_plan_problem(U, n, cks, s):
+    """P3 on one input: None or (signature, what)"""
+    x = range(n)
+    plan = U._slice_1d(n, list(cks), s)
+    starts = [0]
+    for c in cks:
+        starts.append(starts[-1] + c)
+    neg = (s.step or 1) < 0
+    keys = sorted(plan, reverse=neg)
+    pieces = [x[starts[k]: starts[k + 1]][plan[k]] for k in keys]
+    want = x[s]
+    got = [q for p in pieces for q in p]
+    nb = U.new_blockdim(n, list(cks), s)
+    if got != list(want):
+        return ("_slice_1d:partition", "per-block slice plan does not partition the selected positions")
+    if list(nb) != [len(p) for p in pieces] and len(want):
+        return ("new_blockdim:lengths", "new_blockdim differs from per-block piece lengths")
+    if sum(nb) != len(want):
+        return ("new_blockdim:sum", "new_blockdim does not sum to the selection length")
+    return None
 
 
 def search(ctx, U, B, cases_1d, NEX):
@@ -189,22 +281,21 @@ def search(ctx, U, B, cases_1d, NEX):
     # P3 slice plan partitions exactly
     for n, cks, st in cases_1d:
         s = slice(*st)
-        x = list(range(n))
+        x = range(n)   # (ranges slice lazily: only the selected positions are materialized)
         plan = U._slice_1d(n, list(cks), s)
         starts = [0]
         for c in cks:
             starts.append(starts[-1] + c)
         neg = (s.step or 1) < 0
         got = []
-        inside = True
         keys = sorted(plan, reverse=neg)
+        lens = []
         for k in keys:
-            blk = x[starts[k]: starts[k + 1]]
-            piece = blk[plan[k]]
+            piece = x[starts[k]: starts[k + 1]][plan[k]]
             got.extend(piece)
-        want = x[s]
+            lens.append(len(piece))
+        want = list(x[s])
         nb = U.new_blockdim(n, list(cks), s)
-        lens = [len(x[starts[k]: starts[k + 1]][plan[k]]) for k in keys]
         ctx.count(("P3", neg, len(keys) > 1, 0 in cks, len(want) == 0))
         if got != want:
             ctx.fail("_slice_1d:partition", {"fn": "_slice_1d", "dim": n, "chunks": list(cks), "slice": f_slice(s), "got": got, "want": want},
